@@ -101,6 +101,7 @@ pub fn worker<W: World>(
     out: &Path,
     careful: bool,
     trace: bool,
+    sweep: bool,
 ) -> i32 {
     install_quiet_panic_hook();
     let mut ctx = Ctx::new(prop, tier);
@@ -117,7 +118,14 @@ pub fn worker<W: World>(
         if careful {
             let _ = std::fs::write(&progress_path, run.to_string());
         }
-        let case = gen_case::<W>(seed, prop, tier, run);
+        let case = if sweep {
+            match W::sweep_case(run) {
+                Some(c) => c,
+                None => continue,
+            }
+        } else {
+            gen_case::<W>(seed, prop, tier, run)
+        };
         if trace {
             ctx.trace = Some(Vec::new());
         }
@@ -186,6 +194,7 @@ pub fn worker<W: World>(
 #[derive(Default)]
 pub struct StageResult {
     pub world: String,
+    pub sweep: bool,
     pub runs: u64,
     pub steps: u64,
     pub fail_ops: u64,
@@ -221,7 +230,7 @@ struct Job {
 
 /// Runs one stage (one world, a range of run indices) on worker processes.
 pub fn run_stage(prop: &str, tier: Tier, seed: u64, stage: &Stage, scratch: &Path, trace: bool) -> StageResult {
-    let mut res = StageResult { world: stage.world.to_string(), ..Default::default() };
+    let mut res = StageResult { world: stage.world.to_string(), sweep: stage.sweep, ..Default::default() };
     let self_exe = std::env::current_exe().expect("current_exe");
     let fast_exe = std::env::var_os("KSIM_FAST_EXE").map(PathBuf::from);
     let nw = n_workers() as u64;
@@ -240,7 +249,7 @@ pub fn run_stage(prop: &str, tier: Tier, seed: u64, stage: &Stage, scratch: &Pat
                 profile: profile.to_string(),
                 from,
                 to,
-                out: scratch.join(format!("{}-{}-{}", stage.world, tag, k)),
+                out: scratch.join(format!("{}{}-{}-{}", stage.world, if stage.sweep { "-sweep" } else { "" }, tag, k)),
             });
             from = to;
             k += 1;
@@ -248,7 +257,7 @@ pub fn run_stage(prop: &str, tier: Tier, seed: u64, stage: &Stage, scratch: &Pat
     };
     let n = stage.runs;
     add_jobs(&self_exe, profile_name(), 0, n, "a");
-    if tier == Tier::Thorough {
+    if tier == Tier::Thorough && !stage.sweep {
         if let Some(fe) = &fast_exe {
             // the second profile explores a disjoint range of run indices
             add_jobs(fe, "fast", n, n, "b");
@@ -272,6 +281,9 @@ pub fn run_stage(prop: &str, tier: Tier, seed: u64, stage: &Stage, scratch: &Pat
                 .arg(&j.out);
             if trace {
                 cmd.arg("--trace");
+            }
+            if stage.sweep {
+                cmd.arg("--sweep");
             }
             cmd.stdin(Stdio::null());
             match cmd.spawn() {
@@ -440,6 +452,7 @@ fn locate_crash(prop: &str, tier: Tier, seed: u64, stage: &Stage, j: &Job, code:
         .arg(j.from.to_string())
         .arg(j.to.to_string())
         .arg(&out)
+        .arg(if stage.sweep { "--sweep" } else { "--no-sweep" })
         .arg("--careful")
         .stdin(Stdio::null())
         .stderr(Stdio::null())
@@ -459,7 +472,11 @@ fn locate_crash(prop: &str, tier: Tier, seed: u64, stage: &Stage, j: &Job, code:
         .ok()
         .and_then(|s| s.trim().parse().ok())
         .ok_or_else(|| "no progress marker after crash".to_string())?;
-    let case = with_world!(stage.world, W => serde_json::to_value(gen_case::<W>(seed, prop, tier, run)).unwrap());
+    let case = if stage.sweep {
+        with_world!(stage.world, W => serde_json::to_value(<W as World>::sweep_case(run)).unwrap())
+    } else {
+        with_world!(stage.world, W => serde_json::to_value(gen_case::<W>(seed, prop, tier, run)).unwrap())
+    };
     let violation = if still_hung {
         viol("process-hang", usize::MAX, "the run did not finish within the time budget (bounded progress): some konst call does not terminate".to_string())
     } else {
@@ -822,8 +839,11 @@ pub fn cmd_check(prop: &str, tier: Tier) -> i32 {
     let mut stuck: Vec<String> = Vec::new();
     if exit == 0 && std::env::var_os("KSIM_RUNS").is_none() {
         for st in &stages {
+            if st.sweep {
+                continue;
+            }
             let req: &[&str] = with_world!(st.world, W => <W as World>::required_probes(prop));
-            let r = results.iter().find(|r| r.world == st.world).unwrap();
+            let r = results.iter().find(|r| r.world == st.world && !r.sweep).unwrap();
             for p in req {
                 if r.probes.get(*p).copied().unwrap_or(0) == 0 {
                     stuck.push(format!("{}:{}", st.world, p));
@@ -862,7 +882,7 @@ pub fn cmd_check(prop: &str, tier: Tier) -> i32 {
             samples.push(s.clone());
         }
         per_world.push(json!({
-            "world": r.world, "runs": r.runs, "steps": r.steps, "failing_operations": r.fail_ops,
+            "world": r.world, "fault_sweep_stage": r.sweep, "runs": r.runs, "steps": r.steps, "failing_operations": r.fail_ops,
             "nontrivial_runs": r.nontrivial_runs, "distinct_nontrivial_runs": r.run_fps.len(),
             "distinct_states": r.states.len(),
         }));
